@@ -26,6 +26,20 @@ func markerToken(marker, dev string) string {
 func c02Edits(t *rapid.T, marker, dev string) specs.ContainerEdits {
 	tok := markerToken(marker, dev)
 	e := gen.Edits(t, tok, gen.EditOpts{NoHost: true, Marker: tok, MaxPer: 2, NonEmpty: dev != ""})
+	// entries that several devices and Spec files have in common (same container path, same variable, same node
+	// path; the token sits in the value): later ones replace earlier ones, and position matters
+	for i, n := 0, rapid.SampledFrom([]int{0, 0, 1, 2, 3}).Draw(t, tok+"common"); i < n; i++ {
+		l := fmt.Sprintf("%scommon%d", tok, i)
+		switch rapid.IntRange(0, 3).Draw(t, l+"kind") {
+		case 0, 1:
+			e.Mounts = append(e.Mounts, &specs.Mount{HostPath: "/host/" + tok, ContainerPath: rapid.SampledFrom([]string{"/mnt/shared", "/mnt/other", "/mnt/third", "/mnt/shared/deep"}).Draw(t, l+"dest"),
+				Options: []string{"ro"}})
+		case 2:
+			e.Env = append(e.Env, rapid.SampledFrom([]string{"MODE", "SHARED"}).Draw(t, l+"var")+"="+tok)
+		default:
+			e.DeviceNodes = append(e.DeviceNodes, &specs.DeviceNode{Path: rapid.SampledFrom([]string{"/dev/shared0", "/dev/shared1"}).Draw(t, l+"node"), HostPath: "/hostdev/" + tok, Type: "c", Major: 240, Minor: int64(i)})
+		}
+	}
 	return e
 }
 
